@@ -2,9 +2,15 @@
    Only property theorems and their assumptions. *)
 From Coq Require Import List NArith Bool.
 From Quill Require Import Queue.BQDefs Backend.BEDefs Backend.BEInv Backend.BEDispatch.
+From Quill Require TieCtx.
 From Quill Require Queue.UQDefs.
 Import ListNotations.
 Local Open Scope N_scope.
+
+(* T-src: an exited thread's context is removed only when its queue and its transit event buffer are both empty *)
+Theorem C03_tie_ctx_removal_guard : QuillGen.SrcFacts.be_ctx_removal_requires_empty_buffer = true.
+Proof. exact TieCtx.src_be_ctx_removal_requires_empty_buffer. Qed.
+Print Assumptions C03_tie_ctx_removal_guard.
 
 (* Conservation, for every configuration (capacity, limits, grace, queue kind, with or without the
    fixes), every number of threads and every interleaving of frontend and backend micro-steps:
